@@ -29,7 +29,8 @@ DEFAULT_TABLE = {15: "cancel", 1: "cancel", 2: "cancel", 3: "cancel", 5: "ignore
 COND_OF = {"NO_ERROR": 0, "POSITIVE_ACK_LIMIT_REACHED": 1, "KEEP_ALIVE_LIMIT_REACHED": 2,
            "INVALID_TRANSMISSION_MODE": 3, "FILESTORE_REJECTION": 4, "FILE_CHECKSUM_FAILURE": 5,
            "FILE_SIZE_ERROR": 6, "NAK_LIMIT_REACHED": 7, "INACTIVITY_DETECTED": 8,
-           "CHECK_LIMIT_REACHED": 10, "UNSUPPORTED_CHECKSUM_TYPE": 11, "CANCEL_REQUEST_RECEIVED": 15}
+           "CHECK_LIMIT_REACHED": 10, "UNSUPPORTED_CHECKSUM_TYPE": 11, "SUSPEND_REQUEST_RECEIVED": 14,
+           "CANCEL_REQUEST_RECEIVED": 15}
 
 
 class Fails(list):
@@ -906,9 +907,17 @@ def o_C14(tr: Trace) -> Fails:
     for h in tr.kinds:
         table = fault_table(tr, h)
         for e in tr.for_h(h):
-            if e.op == "sethandler" and e.exc is None:
+            if e.op == "sethandler":
+                # the configuration API takes exactly the conditions of the table (ValueError otherwise)
                 w = e.line.split()
-                table[COND_OF[w[2]]] = FH_NAME[w[3]]
+                cond = COND_OF[w[2]]
+                if cond in DEFAULT_TABLE and e.exc is not None:
+                    f.add("C14:set-handler-refused-a-condition-of-the-table", {"op": e.line, "out": e.out[:120]}, e.idx)
+                if cond not in DEFAULT_TABLE and e.exc != "ValueError":
+                    f.add("C14:set-handler-accepted-a-condition-outside-the-table",
+                          {"op": e.line, "out": e.out[:120]}, e.idx)
+                if e.exc is None:
+                    table[cond] = FH_NAME[w[3]]
                 continue
             for x in e.flts:
                 kind, p = ind_parts(x)
